@@ -589,5 +589,8 @@ func runC17(r *Run) {
 			r.Case("")
 		}
 	}
-	r.Finish("JSON configuration documents from a grammar over every modelled field, oneof arm, omission and type-correct odd value (bad URLs, root paths, colon in client id, empty members, tcp:// redis URIs, duplicate/override/default combinations, filters without type) plus random mutations (drop, null, blank, swap oidc/oidc_override, duplicate elements) of the shipped fixtures; each document is loaded by the real LocalConfigFile.Validate() under recover(), decoded independently with protojson for the Lean `load` model, and an accepted result is judged by the Resolved predicate of the statement; non-trivial = an accepted document, distinct by document")
+	if r.unknownViolations() == 0 {
+		loaderLayouts(r, "[C17]") // verdict and configuration in force do not depend on where a setting is written
+	}
+	r.Finish("the same filter written as oidc / default_oidc_config / oidc_override (odd cookie prefixes and callback URIs): same verdict, and the configuration in force is the one written; JSON configuration documents from a grammar over every modelled field, oneof arm, omission and type-correct odd value (bad URLs, root paths, colon in client id, empty members, tcp:// redis URIs, duplicate/override/default combinations, filters without type) plus random mutations (drop, null, blank, swap oidc/oidc_override, duplicate elements) of the shipped fixtures; each document is loaded by the real LocalConfigFile.Validate() under recover(), decoded independently with protojson for the Lean `load` model, and an accepted result is judged by the Resolved predicate of the statement; non-trivial = an accepted document, distinct by document")
 }
